@@ -7,6 +7,7 @@ package main
 import (
 	"bytes"
 	"fmt"
+	"math"
 	"strings"
 
 	"github.com/EliCDavis/polyform/formats/obj"
@@ -166,9 +167,18 @@ func c05ResultTok(gs []obj.ObjMesh, libs []string) string {
 	return strings.Join(parts, " ")
 }
 
-// dyadic value k/2^m: exactly a float32, exact decimal expansion ≤ 15 significant digits
+// scalar payload: dyadic values (exactly float32, short decimals), decimal fractions and full-precision
+// doubles (need float32 rounding when read back), float32 ties, very large / very small magnitudes
 func (c *Ctx) c05F() float64 {
-	switch c.Rng.Intn(8) {
+	switch c.Rng.Intn(12) {
+	case 8:
+		return float64(c.Rng.Intn(20001)-10000) / []float64{10, 100, 1000, 1e6}[c.Rng.Intn(4)]
+	case 9:
+		return c.Rng.NormFloat64() * []float64{1, 100, 1e-3, 1e6}[c.Rng.Intn(4)]
+	case 10:
+		return []float64{1 + 1.0/(1<<24), 16777217, 0.1, 1e21, 1e-7, 3.4028234e38, 1e-45, 5e-324, -2.5e-10, 1e23, 123456.789}[c.Rng.Intn(11)]
+	case 11:
+		return math.Copysign(0, -1)
 	case 0:
 		return 0
 	case 1:
